@@ -34,6 +34,7 @@ RUNS = {
     "C17": {"quick": 480, "thorough": 30000},
     "C19": {"quick": 480, "thorough": 30000},
     "C18": {"quick": 464, "thorough": 9280},
+    "C20": {"quick": 160, "thorough": 9600},
     "C05": {"quick": 480, "thorough": 30000},
     "C06": {"quick": 480, "thorough": 30000},
     "C07": {"quick": 480, "thorough": 30000},
@@ -108,6 +109,106 @@ def worker_env(shard):
     return e
 
 
+RACE_LIB = "github.com/volatiletech/authboss/v3"
+
+
+def parse_races(text, shard):
+    """Race reports in a worker log, each attributed to the run announced by the last SIMRUN marker before it."""
+    out = []
+    seed, phase = None, None
+    lines = text.split("\n")
+    i = 0
+    while i < len(lines):
+        ln = lines[i]
+        m = re.match(r"SIMRUN seed=(\d+) phase=(\S+)", ln)
+        if m:
+            seed, phase = int(m.group(1)), m.group(2)
+        if ln.startswith("WARNING: DATA RACE"):
+            j = i + 1
+            block = [ln]
+            while j < len(lines) and not lines[j].startswith("=================="):
+                block.append(lines[j]); j += 1
+            # split into the two access stacks
+            stacks, cur = [], None
+            for b in block[1:]:
+                if re.match(r"^(Read|Write|Previous read|Previous write|Atomic|Previous atomic)", b.strip()):
+                    cur = []; stacks.append(cur)
+                elif b.startswith("Goroutine "):
+                    cur = None
+                elif cur is not None and b.startswith("  ") and not b.startswith("      "):
+                    cur.append(b.strip())
+            tops = []
+            for st in stacks[:2]:
+                libf = [f for f in st if RACE_LIB in f]
+                tops.append(re.sub(r"\(\)$", "", libf[0].replace(RACE_LIB + "/", "")) if libf else "")
+            lib = any(tops)
+            sig = "C20 clause=data_race site=" + "|".join(sorted(t for t in tops if t))
+            out.append({"seed": seed, "phase": phase, "sig": sig, "lib": lib, "text": "\n".join(block), "shard": shard})
+            i = j
+        i += 1
+    return out
+
+
+def race_in_replay(binp, work, planfile, sig, godebug=None):
+    e = env_go()
+    if godebug:
+        e["GODEBUG"] = godebug
+    else:
+        e.pop("GODEBUG", None)
+    p = subprocess.run([binp, "-test.run", "^TestSim$", "-test.timeout", "0", "-sim.replay", planfile], env=e, cwd=work.dir,
+                       stdout=subprocess.PIPE, stderr=subprocess.STDOUT, text=True, errors="replace")
+    return any(r["sig"] == sig for r in parse_races(p.stdout, 0))
+
+
+def race_replay(work, binp, sig, rep, tier, replaydir):
+    """Turn a race report into a minimised, verified replay file."""
+    godebug = "httpmuxgo121=1" if rep["shard"] % 2 == 1 else None
+    e = env_go()
+    if godebug:
+        e["GODEBUG"] = godebug
+    else:
+        e.pop("GODEBUG", None)
+    planfile = os.path.join(work.dir, "raceplan.%d.json" % rep["seed"])
+    subprocess.run([binp, "-test.run", "^TestSim$", "-sim.tier", tier, "-sim.dumpplan", str(rep["seed"]), "-sim.out", planfile], env=e, cwd=work.dir,
+                   stdout=subprocess.PIPE, stderr=subprocess.STDOUT)
+    plan = json.load(open(planfile))
+    plan["expect"] = sig
+    plan["detail"] = rep["text"][:1500]
+
+    def holds(steps):
+        q = dict(plan); q["steps"] = steps
+        tmp = os.path.join(work.dir, "racetry.json")
+        json.dump(q, open(tmp, "w"))
+        return race_in_replay(binp, work, tmp, sig, godebug)
+
+    steps = plan["steps"]
+    repro = holds(steps)
+    budget = 40
+    if repro:
+        # drop whole clients first, then single actions
+        for b in sorted(set(s["b"] for s in steps), reverse=True):
+            if budget <= 0:
+                break
+            cand = [s for s in steps if s["b"] != b]
+            budget -= 1
+            if len(set(s["b"] for s in cand)) >= 1 and cand and holds(cand):
+                steps = cand
+        i = len(steps) - 1
+        while i >= 0 and budget > 0:
+            cand = steps[:i] + steps[i + 1:]
+            budget -= 1
+            if cand and holds(cand):
+                steps = cand
+            i -= 1
+        repro = holds(steps)
+    plan["steps"] = steps
+    h = hashlib.sha256(sig.encode()).hexdigest()[:16]
+    path = os.path.join(replaydir, "C20-%d-%s.json" % (rep["seed"], h))
+    json.dump(plan, open(path, "w"), indent=1)
+    return {"sig": sig, "prop": "C20", "detail": "race detector: " + sig.split("site=")[1] + " (run seed %s, phase %s)" % (rep["seed"], rep["phase"]),
+            "run_seed": rep["seed"], "replay": path, "steps": len(steps), "repro": repro}
+
+
 def run_check(prop, tier):
     t0 = time.time()
     seed = int(os.environ.get("VERIF_SEED", DEFAULT_SEED))
@@ -144,11 +245,27 @@ def run_check(prop, tier):
                     q.kill()
                 die(2, "HARNESS-ERROR: watchdog fired after %ds (exit 2, not a pass and not a violation)" % WATCHDOG[tier])
             log.close()
-            if p.returncode != 0 or not os.path.exists(out):
+            # a race build exits 1 when the detector reported something; the result file is still written
+            if (p.returncode != 0 and not (race and p.returncode == 1 and os.path.exists(out))) or not os.path.exists(out):
                 sys.stdout.write(open(os.path.join(work.dir, "log.%d.txt" % sh)).read()[-6000:])
                 die(2, "HARNESS-ERROR: worker %d exited %s without a result (exit 2)" % (sh, p.returncode))
             with open(out) as f:
                 results.append(json.load(f))
+
+        race_viols = []
+        if race:
+            reports = []
+            for sh in range(nshards):
+                reports += parse_races(open(os.path.join(work.dir, "log.%d.txt" % sh), errors="replace").read(), sh)
+            harness_only = [r for r in reports if not r["lib"]]
+            if harness_only:
+                print(harness_only[0]["text"][:3000])
+                die(2, "HARNESS-ERROR: the race detector reported a race without any authboss frame (harness defect, exit 2)")
+            seen = {}
+            for r in reports:
+                seen.setdefault(r["sig"], r)
+            for sig, r in sorted(seen.items()):
+                race_viols.append(race_replay(work, binp, sig, r, tier, replaydir))
 
         # determinism spot check: shard 0's first runs again, other GOMAXPROCS
         d0 = results[0].get("digests") or {}
@@ -158,7 +275,7 @@ def run_check(prop, tier):
                    "-sim.prop", prop, "-sim.tier", tier, "-sim.seed", str(seed), "-sim.runs", str(min(runs, 4 * nshards)),
                    "-sim.shard", "0", "-sim.nshards", str(nshards), "-sim.out", out, "-sim.digestn", "4", "-sim.shrink", "0"]
             p = subprocess.run(cmd, env=worker_env(0), stdout=subprocess.PIPE, stderr=subprocess.STDOUT, cwd=work.dir, text=True)
-            if p.returncode != 0:
+            if p.returncode != 0 and not (race and p.returncode == 1 and os.path.exists(out)):
                 print(p.stdout[-4000:])
                 die(2, "HARNESS-ERROR: determinism re-run failed (exit 2)")
             d1 = json.load(open(out)).get("digests") or {}
@@ -200,6 +317,9 @@ def run_check(prop, tier):
             if len(samples) < 3:
                 samples += (r.get("samples") or [])[:1]
 
+        for rv in race_viols:
+            viols[rv["sig"]] = rv
+            sigcounts[rv["sig"]] = sigcounts.get(rv["sig"], 0) + rv.get("count", 1)
         chosen = set(v.get("replay") for v in viols.values())
         for rp in all_replays:
             if rp and rp not in chosen and os.path.exists(rp):
@@ -313,9 +433,12 @@ def run_replay(path):
                            (["-sim.trace"] if os.environ.get("VERIF_TRACE") else []),
                            env=e, cwd=work.dir, stdout=subprocess.PIPE, stderr=subprocess.STDOUT, text=True)
         sys.stdout.write(p.stdout)
-        if p.returncode != 0 or not os.path.exists(out):
+        if (p.returncode != 0 and not (race and p.returncode == 1)) or not os.path.exists(out):
             die(2, "HARNESS-ERROR: replay process failed (exit 2)")
         r = json.load(open(out))
+        if race and plan.get("expect", "").startswith("C20 clause=data_race"):
+            r["reproduced"] = any(x["sig"] == plan["expect"] for x in parse_races(p.stdout, 0))
+            r["digest_match"] = True
         if r["reproduced"]:
             if not r["digest_match"]:
                 print("note: violation reproduced but the trace digest differs (the tree changed since the file was written)")
